@@ -55,21 +55,21 @@ PLANS = {
                [D("down", n=60, steps=100, procs=8, faults=10), D("mix", n=60, steps=100, procs=8)],
                "non-trivial: a scan that tainted nodes (in particular down to exactly the minimum, or under auto-discovered bounds) or ran the below-minimum recovery",
                ["C03:tainted", "C03:tainted-down-to-min", "C03:tainted-auto", "C03:recovery"]),
-    "C04": ctl(["updown", "auto", "asgedit", "all_scale"], ["updown", "updown@v2", "updown@v3", "auto", "asgedit", "all_scale"],
+    "C04": ctl(["updown", "auto", "asgedit", "forceup@bound", "all_scale"], ["updown", "updown@v2", "updown@v3", "auto", "asgedit", "forceup", "forceup@bound", "all_scale"],
                [D("up", faults=8), D("mix")],
                [D("up", n=60, steps=100, procs=8, faults=8), D("mix", n=60, steps=100, procs=8)],
                "non-trivial: a scan that asked the cloud for capacity (with max_nodes below / above the cloud maximum, landing on the bound or not)",
                ["C04:request", "C04:request-on-bound", "C04:max_nodes-below-cloud-max", "C04:max_nodes-above-cloud-max"]),
     "C06": ctl(["updown", "all_scale"], ["updown", "updown@v2", "updown@v3", "updown@v4", "auto", "all_scale"],
-               [D("down", faults=0, dry=0), D("up", faults=0, dry=0, fine=True), D("mix", faults=0, dry=0, fine=True)],
-               [D("down", n=60, steps=100, procs=6, faults=0, dry=0), D("up", n=60, steps=100, procs=6, faults=0, dry=0, fine=True), D("mix", n=60, steps=100, procs=6, faults=0, dry=0, fine=True)],
+               [D("down", faults=0, dry=0), D("up", faults=0, dry=0, fine=True), D("mix", faults=0, dry=0, fine=True), D("down", faults=40, dry=0, nodes=8)],
+               [D("down", n=60, steps=100, procs=6, faults=0, dry=0), D("up", n=60, steps=100, procs=6, faults=0, dry=0, fine=True), D("mix", n=60, steps=100, procs=6, faults=0, dry=0, fine=True), D("down", n=60, steps=100, procs=6, faults=40, dry=0, nodes=8)],
                "non-trivial: a fault-free scan of an unlocked, in-bounds group, classified by the exact band of max(cpu%, mem%) (incl. exactly on a threshold) and by the starve / max-age triggers",
-               ["C06:band-fast", "C06:band-slow", "C06:band-none", "C06:band-up", "C06:on-threshold", "C06:starve", "C06:max-age"]),
-    "C07": ctl(["updown", "forceup", "all_scale"], ["updown", "updown@v2", "updown@v3", "forceup", "lock", "lag", "all_scale"],
-               [D("up", faults=25), D("mix", faults=20)],
-               [D("up", n=60, steps=100, procs=8, faults=25), D("mix", n=60, steps=100, procs=8, faults=20)],
+               ["C06:band-fast", "C06:band-slow", "C06:band-none", "C06:band-up", "C06:on-threshold", "C06:starve", "C06:max-age", "C06:taint-band-with-failing-node-write"]),
+    "C07": ctl(["updown", "forceup", "lag", "all_scale"], ["updown", "updown@v2", "updown@v3", "forceup", "lock", "lag", "all_scale"],
+               [D("up", faults=25, lag=True), D("mix", faults=20, lag=True)],
+               [D("up", n=60, steps=100, procs=8, faults=25, lag=True), D("mix", n=60, steps=100, procs=8, faults=20, lag=True)],
                "non-trivial: a scale-up scan (band decision or below-minimum recovery), esp. with tainted nodes reused, capacity bought after reuse or after a same-scan removal, creation-time ties",
-               ["C07:scale-up", "C07:reused", "C07:reused-and-bought", "C07:removed-then-bought", "C07:ties"]),
+               ["C07:scale-up", "C07:reused", "C07:reused-and-bought", "C07:removed-then-bought", "C07:ties", "C07:stale-view-lists-a-vanished-tainted-node"]),
     "C08": ctl(["updown", "all_scale"], ["updown", "updown@v2", "updown@v3", "lag", "all_scale"],
                [D("down", faults=30, nodes=8), D("mix", faults=20)],
                [D("down", n=60, steps=100, procs=8, faults=30, nodes=8), D("mix", n=60, steps=100, procs=8, faults=20)],
